@@ -14,4 +14,4 @@ for id in "$@"; do
 done
 rm -rf $S /verif/_work/build-*-$H /verif/_work/bin/*-$H
 # the translators wrote coq/Gen/*.v from the scratch tree: put the committed (= /repo) versions back
-git -C /verif checkout -- coq/Gen 2>/dev/null || true
+[ -n "$PV_NO_GEN_RESTORE" ] || git -C /verif checkout -- coq/Gen 2>/dev/null || true
